@@ -17,13 +17,23 @@ def view_syms(fb):
                 return "L"
             if c.get("name") in (NS + "Payload::getRawPayload", "TECMP::Payload::getRawPayload"):
                 return "D"
-            if (x.get("t") or {}).get("k") == "ptr" and c.get("inrepo") and facts.inline_accessor(fb, x) is None:
-                return "C:" + canon(x)
+            if (x.get("t") or {}).get("k") == "ptr" and c.get("inrepo"):
+                y = facts.inline_accessor(fb, x)
+                if y is None:
+                    return "C:" + canon(x)
+                # inlinable, but only worth looking into when what it stands for can be read as base + offset; otherwise the call
+                # itself is the (opaque) base — two uses of the same position helper still compare equal
+                try:
+                    f = ptr_form(fb, None, y, 4, _nosym=True)
+                except Exception:
+                    f = None
+                if f is None:
+                    return "C:" + canon(x)
         return None
     return syms
 
 
-def ptr_form(fb, fn, e, depth=5):
+def ptr_form(fb, fn, e, depth=5, _nosym=False):
     """Byte-level linear form of a pointer expression: {base symbol: 1, 1: byte offset}.  Pointer arithmetic is scaled by the
     pointee size (`header + 1` is sizeof(Header) bytes on), casts between pointer types keep the address, one-line accessors
     (getHeader(), getRawPayload()) and single-definition locals stand for their expressions."""
@@ -38,11 +48,16 @@ def ptr_form(fb, fn, e, depth=5):
     if s0:
         return {s0: 1, 1: 0}
     if x.get("k") == "ref" and x.get("dk") == "local":
+        if fn is None:
+            return None
         ds = facts.local_defs(fn).get(x["decl"], [])
         return ptr_form(fb, fn, ds[0], depth - 1) if len(ds) == 1 else None
     if x.get("k") == "call":
         y = facts.inline_accessor(fb, x)
-        return ptr_form(fb, fn, y, depth - 1) if y is not None else None
+        f = ptr_form(fb, fn, y, depth - 1) if y is not None else None
+        if f is None and (x.get("t") or {}).get("k") == "ptr" and (x.get("callee") or {}).get("inrepo") and not x.get("args"):
+            return {"C:" + canon(x): 1, 1: 0}  # a position helper of the class that is not a plain expression: an opaque base
+        return f
     if x.get("k") == "un" and x.get("op") == "&":
         t = x["e"]
         while isinstance(t, dict) and t.get("k") == "cast":
